@@ -1563,6 +1563,27 @@ static void vf_case(uint64_t c, vf_rng *r)
             break;
         }
         case 8: case 9:
+            if (vf_chance(r, 1, 4) && x->n && 2 * x->n + 8 <= MMAX)
+            {
+                /* the appended bytes lie in the string's OWN storage (the whole string appended to itself, or a block of its
+                   content): the abstract operation is as defined as any other, but the storage may move while it is being read */
+                int const term = op == 8, whole = vf_chance(r, 1, 2);
+                size_t const o = whole ? 0 : (size_t)vf_below(r, x->n), kk = whole ? x->n : 1 + (size_t)vf_below(r, x->n - o);
+                unsigned char own[MMAX];
+                int rc;
+                memcpy(own, x->m + o, kk);
+                opname = whole ? (term ? "cat-self" : "cat_-self") : (term ? "catn-own-block" : "catn_-own-block");
+                vf_log("str %d %s: %zu bytes of its own content from offset %zu (len %zu mem %zu)", k, opname, kk, o, x->n, a_str_mem(s));
+                rc = whole ? (term ? a_str_cat(s, s) : a_str_cat_(s, s)) : (term ? a_str_catn(s, a_str_ptr(s) + o, kk) : a_str_catn_(s, a_str_ptr(s) + o, kk));
+                ++vf.evals;
+                VF_COUNT("append-of-own-content");
+                if (rc != A_SUCCESS) { FAIL("unexpected-error", "rc %d", rc); alive = 0; break; }
+                m_append(x, own, kk);
+                alive = check_state(x, term);
+                break;
+            }
+            /* fall through */
+        case 31:
         {
             int term = op == 8, rc;
             if (x->n + y->n + 8 > MMAX) { break; }
@@ -1819,6 +1840,31 @@ static void vf_case(uint64_t c, vf_rng *r)
                     want = ref_cmp(x->m, x->n, (unsigned char *)cs, cn);
                     if (sgn(got) != want) { FAIL("cmps", "a_str_cmps sign %d expected %d", sgn(got), want); }
                     free(cs);
+                }
+            }
+            /* the string's own storage handed back as the other operand, with a different length or offset (a prefix, a suffix, the
+               content up to an embedded NUL): the ordering is defined on bytes and lengths, not on addresses (seeded change C06-H:
+               an early exit `same block => equal`) */
+            if (x->n && a_str_ptr(s))
+            {
+                size_t const k = (size_t)vf_below(r, x->n + 1), o = (size_t)vf_below(r, x->n + 1), cn = strnlen(a_str_ptr(s), x->n);
+                char const *own = a_str_ptr(s);
+                VF_COUNT("cmp-with-own-storage-as-other-operand");
+                got = a_str_cmpn(s, own, k);
+                want = ref_cmp(x->m, x->n, x->m, k);
+                if (sgn(got) != want) { FAIL("cmpn-own-prefix", "a_str_cmpn(s, a_str_ptr(s), %zu) sign %d expected %d (len %zu)", k, sgn(got), want, x->n); }
+                got = a_str_cmp_(own, k, own, x->n);
+                want = ref_cmp(x->m, k, x->m, x->n);
+                if (sgn(got) != want) { FAIL("cmp_-own-prefix", "a_str_cmp_(p, %zu, p, %zu) sign %d expected %d", k, x->n, sgn(got), want); }
+                got = a_str_cmp_(own + o, x->n - o, own, x->n);
+                want = ref_cmp(x->m + o, x->n - o, x->m, x->n);
+                if (sgn(got) != want) { FAIL("cmp_-own-suffix", "a_str_cmp_(p + %zu, %zu, p, %zu) sign %d expected %d", o, x->n - o, x->n, sgn(got), want); }
+                if (cn < x->n || a_str_mem(s) > x->n) /* a terminator inside the capacity: the C-string view of the own storage */
+                {
+                    if (cn == x->n) { a_str_ptr(s)[x->n] = 0; } /* spare capacity behind the content: terminate there (allowed: outside the content) */
+                    got = a_str_cmps(s, own);
+                    want = ref_cmp(x->m, x->n, x->m, cn);
+                    if (sgn(got) != want) { FAIL("cmps-own-storage", "a_str_cmps(s, a_str_ptr(s)) sign %d expected %d (len %zu, first NUL at %zu)", sgn(got), want, x->n, cn); }
                 }
             }
             (void)ok;
